@@ -9,7 +9,13 @@ Import ListNotations.
 Section StratSolve.
 Context {T : Type}.
 Variable K : ops T.
-Hypothesis L : lawful_order K.
+(* all that is needed of the comparisons: the two scans are the arg-max / arg-min filters. Holds under the
+   total-order laws (exact rationals: Laws.scan_max_is_argmax) and for binary64 on ALL inputs (Props/C04F.v). *)
+Definition scans_are_filters : Prop :=
+  forall m0 (l : list (string * T)),
+    scan_max K m0 l = (vmax K m0 l, map fst (filter (fun av => eqb K (snd av) (vmax K m0 l)) l)) /\
+    scan_min K m0 l = (vmin K m0 l, map fst (filter (fun av => eqb K (snd av) (vmin K m0 l)) l)).
+Hypothesis L : scans_are_filters.
 Notation game := (@game T).
 Notation getn := (getn K).
 
@@ -39,8 +45,8 @@ Proof.
   { unfold vals_of. apply map_ext. intros t. rewrite Hr. cbn [r_probs].
     change (zero K) with (reach (dnode K)). rewrite map_nth. reflexivity. }
   rewrite Hv. destruct (nth i (g_players g) PR).
-  - rewrite (scan_max_is_argmax K L). reflexivity.
-  - rewrite (scan_min_is_argmin K L). reflexivity.
+  - rewrite (proj1 (L _ _)). reflexivity.
+  - rewrite (proj2 (L _ _)). reflexivity.
   - reflexivity.
 Qed.
 
@@ -80,9 +86,13 @@ Proof.
   { rewrite Hrow. unfold vals_of. apply map_ext. intros t. rewrite Hr. cbn [r_rewards].
     change (zero K) with (er (dnode K)). rewrite map_nth. reflexivity. }
   rewrite Hv. destruct (nth i (g_players g) PR).
-  - rewrite (scan_max_is_argmax K L). reflexivity.
+  - rewrite (proj1 (L _ _)). reflexivity.
   - destruct (vals_of (r_rewards r) (nth i (r_pruned r) [])) as [|[a v0] l]; [reflexivity|].
-    rewrite (scan_min_is_argmin K L). reflexivity.
+    rewrite (proj2 (L _ _)). reflexivity.
   - reflexivity.
 Qed.
 End StratSolve.
+
+Lemma lawful_scans_are_filters {T} (K : ops T) : lawful_order K -> scans_are_filters K.
+Proof. intros L m0 l. split; [apply (scan_max_is_argmax K L)|apply (scan_min_is_argmin K L)]. Qed.
+
